@@ -165,6 +165,10 @@ func (e *Engine) addHarnessAPI(p string) {
 		}
 		return &Closure{Fn: f}
 	}
+	in[p+"vNoNative"] = func(c *callCtx) Value {
+		c.s.noNative = true // this path depends on an engine-only model (e.g. the capacity override)
+		return nil
+	}
 	in[p+"vTier"] = func(c *callCtx) Value { return uint64(c.s.opts.Tier) }
 	in[p+"vSymbolic"] = func(c *callCtx) Value { return true }
 	in[p+"vOpt"] = func(c *callCtx) Value {
@@ -183,6 +187,8 @@ func (e *Engine) addHarnessAPI(p string) {
 			o.MapOrder = v
 		case "poolany":
 			o.PoolAny = v != 0
+		case "globalrace":
+			o.GlobalRace = v != 0
 		case "exprtable":
 			o.ExprTable = v != 0
 		default:
